@@ -152,8 +152,8 @@ func cmdCheck(args []string) int {
 	// global invariants: proved of the package init functions of every package that owns a function under check
 	pkgsSeen := map[string]bool{}
 	for _, vc := range vcs {
-		if vc.fn != nil && vc.fn.Pkg != nil {
-			pkgsSeen[vc.fn.Pkg.Pkg.Path()] = true
+		for p := range vc.usedInvPkgs {
+			pkgsSeen[p] = true
 		}
 	}
 	for _, ivc := range initVCs(P, S, pkgsSeen) {
@@ -363,6 +363,7 @@ func lemmaVC(P *Program, S *Specs, pid string) *FuncVC {
 	st := &State{ver: map[string]string{}}
 	vc.entry = st
 	vc.ensureComp("alloc", ArraySort(SRef, SBool))
+	vc.assumeAxioms(&Env{vc: vc, st: st, old: st, vars: map[string]SVal{}})
 	for _, l := range ls {
 		env := &Env{vc: vc, st: st, old: st, vars: map[string]SVal{}, ctx: l.Clause.Ctx}
 		t, err := env.Bool(l.Clause.Expr)
@@ -415,6 +416,9 @@ func initVCs(P *Program, S *Specs, pkgs map[string]bool) []*FuncVC {
 	}
 	sort.Strings(paths)
 	for _, p := range paths {
+		if !pkgs[p] {
+			continue // no function under check relies on this package's invariants
+		}
 		key := shortPkg(p) + ".init"
 		fn := P.Func(key)
 		if fn == nil {
